@@ -1,21 +1,181 @@
 /-
-C04 — RecordIO InputSplit: parts deliver every record exactly once.
-Property theorems only; definitions in DmlcModel/Split/{Model,Spec}.lean, lemmas in DmlcModel/Split/*Lemmas.lean.
+C04 — RecordIO InputSplit: the parts of an `n`-way split deliver every record exactly once, byte-identical
+and in order (records containing the magic word, stored as several parts on disk, included), whether consumed
+with `NextRecord` or with `NextChunk`; every chunk consists of whole records only.
+Property theorems only; definitions in DmlcModel/Split/{Model,Spec}.lean (`partBlobs`, `okOf`), boundaries
+`bndR`, record starts `GHead` and the records of a byte range `recsIn` in DmlcModel/Split/RecSnap.lean, the
+records a consumer extracts from the blobs `recordsOf` / `blobRecords` in DmlcModel/Split/CoverRec.lean, lemmas
+in DmlcModel/Split/*.lean (assembled in DmlcModel/Split/CoverRec.lean).
+
+Common hypotheses: `rss` holds one non-empty record list per file (at least one file), every record shorter
+than 2^29 bytes (the RecordIO length field), file `i` is `writeAll rss[i]` (the image `WriteRecord` produces),
+less than 2^56 bytes in all, `1 ≤ n < 2^32` parts (`0 < n` follows from `k < n` in the per-part statements), a
+buffer of `2 ≤ w < 2^56` words (with a one-word buffer `FindLastRecordBegin`'s `CHECK(p >= pbegin + 2)`
+fires), any `kBufferSize` `dw`, any choice `pick` of `NextRecord` (`true`) / `NextChunk` (`false`) per call.
+
+Not covered here: tiling ONE delivered chunk by `RecordIOChunkReader` with `q` sub-parts (property C02);
+`C04_chunk_readable` only states that the sequential `RecordIOReader` reads a delivered chunk back.
 -/
-import DmlcModel.Split.Spec
+import DmlcModel.Split.CoverRec
+import DmlcModel.Props.C01
 
 namespace DmlcModel.Props.C04
 open DmlcModel DmlcModel.Split DmlcModel.RecordIO
+open DmlcModel.Split.CoverAux
 
-/-- **C04, full statement** (kept visible; see `CONFIG['partial']`): for every list of record lists `rss` (one
-RecordIO file per list, written by `WriteRecord`), every `n ≥ 1`, every buffer of `w ≥ 2` words, the parts
-`0..n-1` consumed with `NextRecord` deliver exactly the written records, in order. -/
-def C04_parts_cover_statement : Prop :=
-  ∀ (rss : List (List Bytes)) (n w dw : Nat),
-    rss ≠ [] → (∀ rs ∈ rss, rs ≠ [] ∧ ∀ r ∈ rs, r.length < 2 ^ 29) → totalSize (rss.map writeAll) < 2 ^ 56 →
-    0 < n → n < 2 ^ 32 → 2 ≤ w → w < 2 ^ 56 →
+/-- part `k` ends without an abnormal outcome; consumed with `NextRecord` it delivers exactly the records
+whose image starts in its byte range `[bndR k, bndR (k+1))`, byte-identical and in order -/
+theorem C04_part_records (rss : List (List Bytes)) (n w dw : Nat) (hne : rss ≠ [])
+    (hrss : ∀ rs ∈ rss, rs ≠ [] ∧ ∀ r ∈ rs, r.length < 2^29) (ht : totalSize (rss.map writeAll) < 2^56)
+    (hn : n < 2^32) (hw2 : 2 ≤ w) (hw : w < 2^56) (k : Nat) (hk : k < n) :
+    partBlobs Fmt.recordio (rss.map writeAll) k n w dw (fun _ => true)
+      = .ok (recsIn rss.flatten 0 (bndR rss n k) (bndR rss n (k + 1))) :=
+  part_rec_records rss (rssOk_of rss hrss) hne ht k n w dw hk hn hw2 hw
+
+/-- MAIN: consumed with `NextRecord`, no part fails and the parts `0..n-1` deliver exactly the written records,
+in order, byte-identical, each exactly once -/
+theorem C04_parts_cover (rss : List (List Bytes)) (n w dw : Nat) (hne : rss ≠ [])
+    (hrss : ∀ rs ∈ rss, rs ≠ [] ∧ ∀ r ∈ rs, r.length < 2^29) (ht : totalSize (rss.map writeAll) < 2^56)
+    (hn0 : 0 < n) (hn : n < 2^32) (hw2 : 2 ≤ w) (hw : w < 2^56) :
     ∃ parts : List (List Bytes),
-      (List.range n).map (fun k => partBlobs Fmt.recordio (rss.map writeAll) k n w dw (fun _ => true)) = parts.map .ok ∧
-      parts.flatten = rss.flatten
+      (List.range n).map (fun k => okOf (partBlobs Fmt.recordio (rss.map writeAll) k n w dw (fun _ => true)))
+        = parts.map some ∧
+      parts.flatten = rss.flatten := by
+  refine ⟨(List.range n).map (fun k => recsIn rss.flatten 0 (bndR rss n k) (bndR rss n (k + 1))), ?_, ?_⟩
+  · rw [List.map_map]
+    apply List.map_congr_left
+    intro k hk
+    rw [C04_part_records rss n w dw hne hrss ht hn hw2 hw k (List.mem_range.1 hk)]
+    rfl
+  · rw [← List.flatMap_def]
+    have ht62 : totalSize (recFiles rss) < 2^62 := Nat.lt_of_lt_of_le ht (by omega)
+    exact records_parts_telescope rss (rssOk_of rss hrss) hne ht62 n hn0 hn
+
+/-- every chunk consists of whole records only — for any mix of `NextRecord` / `NextChunk`, part `k` ends
+normally and its blobs correspond one-to-one to consecutive non-empty runs of the records of the part: a
+`NextRecord` blob is exactly the next record, a `NextChunk` blob is the image `writeAll run` of the next run
+of whole records; the runs concatenate to the records that start in the byte range of the part -/
+theorem C04_chunks_whole_records (rss : List (List Bytes)) (n w dw : Nat) (hne : rss ≠ [])
+    (hrss : ∀ rs ∈ rss, rs ≠ [] ∧ ∀ r ∈ rs, r.length < 2^29) (ht : totalSize (rss.map writeAll) < 2^56)
+    (hn : n < 2^32) (hw2 : 2 ≤ w) (hw : w < 2^56) (k : Nat) (hk : k < n) (pick : Nat → Bool) :
+    ∃ (bs : List Bytes) (runs : List (List Bytes)),
+      partBlobs Fmt.recordio (rss.map writeAll) k n w dw pick = .ok bs ∧ runs.length = bs.length ∧
+      runs.flatten = recsIn rss.flatten 0 (bndR rss n k) (bndR rss n (k + 1)) ∧
+      (∀ (i : Nat) (b : Bytes) (run : List Bytes), bs[i]? = some b → runs[i]? = some run →
+        run ≠ [] ∧ (if pick i then run = [b] else b = writeAll run)) :=
+  part_rec rss (rssOk_of rss hrss) hne ht k n w dw hk hn hw2 hw pick
+
+/-- no part raises an abnormal outcome (`check`, `oob`, `uninit`, `div`, `fuel`), in any consumption mode -/
+theorem C04_no_error (rss : List (List Bytes)) (n w dw : Nat) (hne : rss ≠ [])
+    (hrss : ∀ rs ∈ rss, rs ≠ [] ∧ ∀ r ∈ rs, r.length < 2^29) (ht : totalSize (rss.map writeAll) < 2^56)
+    (hn : n < 2^32) (hw2 : 2 ≤ w) (hw : w < 2^56) (k : Nat) (hk : k < n) (pick : Nat → Bool) :
+    ∃ bs, partBlobs Fmt.recordio (rss.map writeAll) k n w dw pick = .ok bs := by
+  obtain ⟨bs, _, h, _⟩ := C04_chunks_whole_records rss n w dw hne hrss ht hn hw2 hw k hk pick
+  exact ⟨bs, h⟩
+
+/-- the records a consumer extracts from part `k` (a `NextRecord` blob is one record, a `NextChunk` blob is
+read back with `RecordIOReader`: `recordsOf`) are the records that start in the byte range of the part,
+whatever the mix of `NextRecord` / `NextChunk` -/
+theorem C04_part_records_any_mode (rss : List (List Bytes)) (n w dw : Nat) (hne : rss ≠ [])
+    (hrss : ∀ rs ∈ rss, rs ≠ [] ∧ ∀ r ∈ rs, r.length < 2^29) (ht : totalSize (rss.map writeAll) < 2^56)
+    (hn : n < 2^32) (hw2 : 2 ≤ w) (hw : w < 2^56) (k : Nat) (hk : k < n) (pick : Nat → Bool) :
+    recordsOf pick (partBlobs Fmt.recordio (rss.map writeAll) k n w dw pick)
+      = recsIn rss.flatten 0 (bndR rss n k) (bndR rss n (k + 1)) :=
+  recordsOf_part_rec rss (rssOk_of rss hrss) hne ht k n w dw hk hn hw2 hw pick
+
+/-- MAIN, any mode: no part fails, and the records extracted from the blobs of the parts `0..n-1` (any mix of
+`NextRecord` / `NextChunk`, chosen per part and per call) concatenate to the written records, in order,
+byte-identical, each exactly once -/
+theorem C04_parts_cover_any_mode (rss : List (List Bytes)) (n w dw : Nat) (hne : rss ≠ [])
+    (hrss : ∀ rs ∈ rss, rs ≠ [] ∧ ∀ r ∈ rs, r.length < 2^29) (ht : totalSize (rss.map writeAll) < 2^56)
+    (hn0 : 0 < n) (hn : n < 2^32) (hw2 : 2 ≤ w) (hw : w < 2^56) (pick : Nat → Nat → Bool) :
+    (∀ k, k < n → ∃ bs, partBlobs Fmt.recordio (rss.map writeAll) k n w dw (pick k) = .ok bs) ∧
+    (List.range n).flatMap
+        (fun k => recordsOf (pick k) (partBlobs Fmt.recordio (rss.map writeAll) k n w dw (pick k)))
+      = rss.flatten :=
+  ⟨fun k hk => C04_no_error rss n w dw hne hrss ht hn hw2 hw k hk (pick k),
+   parts_cover_rec rss (rssOk_of rss hrss) hne ht n w dw hn0 hn hw2 hw pick⟩
+
+/-- the same without the extraction function: there is a family of run lists, one per part, matching the
+blobs of the part one-to-one (`NextRecord` blob = the single record of its run, `NextChunk` blob = image of
+its non-empty run), whose concatenation over all parts is the list of written records -/
+theorem C04_parts_cover_runs (rss : List (List Bytes)) (n w dw : Nat) (hne : rss ≠ [])
+    (hrss : ∀ rs ∈ rss, rs ≠ [] ∧ ∀ r ∈ rs, r.length < 2^29) (ht : totalSize (rss.map writeAll) < 2^56)
+    (hn0 : 0 < n) (hn : n < 2^32) (hw2 : 2 ≤ w) (hw : w < 2^56) (pick : Nat → Nat → Bool) :
+    ∃ runsOf : Nat → List (List Bytes),
+      (∀ k, k < n → ∃ bs : List Bytes,
+        partBlobs Fmt.recordio (rss.map writeAll) k n w dw (pick k) = .ok bs ∧
+        (runsOf k).length = bs.length ∧
+        (∀ (i : Nat) (b : Bytes) (run : List Bytes), bs[i]? = some b → (runsOf k)[i]? = some run →
+          run ≠ [] ∧ (if pick k i then run = [b] else b = writeAll run))) ∧
+      (List.range n).flatMap (fun k => (runsOf k).flatten) = rss.flatten := by
+  have hex : ∀ k, ∃ runs : List (List Bytes), k < n → ∃ bs : List Bytes,
+      partBlobs Fmt.recordio (rss.map writeAll) k n w dw (pick k) = .ok bs ∧ runs.length = bs.length ∧
+      runs.flatten = recsIn rss.flatten 0 (bndR rss n k) (bndR rss n (k + 1)) ∧
+      (∀ (i : Nat) (b : Bytes) (run : List Bytes), bs[i]? = some b → runs[i]? = some run →
+        run ≠ [] ∧ (if pick k i then run = [b] else b = writeAll run)) := by
+    intro k
+    by_cases hk : k < n
+    · obtain ⟨bs, runs, h⟩ := C04_chunks_whole_records rss n w dw hne hrss ht hn hw2 hw k hk (pick k)
+      exact ⟨runs, fun _ => ⟨bs, h⟩⟩
+    · exact ⟨[], fun h => absurd h hk⟩
+  refine ⟨fun k => Classical.choose (hex k), ?_, ?_⟩
+  · intro k hk
+    obtain ⟨bs, h1, h2, _, h4⟩ := Classical.choose_spec (hex k) hk
+    exact ⟨bs, h1, h2, h4⟩
+  · have ht62 : totalSize (recFiles rss) < 2^62 := Nat.lt_of_lt_of_le ht (by omega)
+    refine (flatMap_congr_mem _ _ _ ?_).trans
+      (records_parts_telescope rss (rssOk_of rss hrss) hne ht62 n hn0 hn)
+    intro k hk
+    obtain ⟨_, _, _, h3, _⟩ := Classical.choose_spec (hex k) (List.mem_range.1 hk)
+    exact h3
+
+/-- what a consumer extracts from a part does not depend on the buffer size, the default buffer size, or the
+consumption mode -/
+theorem C04_buffer_independent (rss : List (List Bytes)) (n w dw : Nat) (hne : rss ≠ [])
+    (hrss : ∀ rs ∈ rss, rs ≠ [] ∧ ∀ r ∈ rs, r.length < 2^29) (ht : totalSize (rss.map writeAll) < 2^56)
+    (hn : n < 2^32) (hw2 : 2 ≤ w) (hw : w < 2^56) (w' dw' : Nat) (hw2' : 2 ≤ w') (hw' : w' < 2^56)
+    (k : Nat) (hk : k < n) (pick pick' : Nat → Bool) :
+    recordsOf pick (partBlobs Fmt.recordio (rss.map writeAll) k n w dw pick)
+      = recordsOf pick' (partBlobs Fmt.recordio (rss.map writeAll) k n w' dw' pick') := by
+  rw [C04_part_records_any_mode rss n w dw hne hrss ht hn hw2 hw k hk pick,
+    C04_part_records_any_mode rss n w' dw' hne hrss ht hn hw2' hw' k hk pick']
+
+/-- a delivered chunk can be read back: `RecordIOReader` on the image `writeAll run` of a run of whole
+records returns exactly `run` (the C01 round trip, restated for chunks) -/
+theorem C04_chunk_readable (run : List Bytes) (h : ∀ r ∈ run, r.length < 2^29) :
+    RecordIO.readAll (RecordIO.writeAll run) = some run :=
+  DmlcModel.Props.C01.C01_roundtrip run h
+
+/-- the state `Init` + `ResetPartition(k, n)` construct satisfies the drain invariant `GInv` with an empty
+chunk window, and what it still has to deliver is the byte range between the two boundaries of part `k`,
+which is the image of the records that start in it -/
+theorem C04_initial_invariant (rss : List (List Bytes)) (n w dw : Nat) (hne : rss ≠ [])
+    (hrss : ∀ rs ∈ rss, rs ≠ [] ∧ ∀ r ∈ rs, r.length < 2^29) (ht : totalSize (rss.map writeAll) < 2^56)
+    (hn : n < 2^32) (hw2 : 2 ≤ w) (hw : w < 2^56) (k : Nat) (hk : k < n) :
+    ∃ s, mkSt Fmt.recordio (rss.map writeAll) k n w false dw = .ok s ∧ s.wrap = none ∧
+      GInv s.base [] (recsIn rss.flatten 0 (bndR rss n k) (bndR rss n (k + 1))) ∧
+      pending Fmt.recordio s.base
+        = rangeStream false (rss.map writeAll) (bndR rss n k) (bndR rss n (k + 1)) ∧
+      rangeStream false (rss.map writeAll) (bndR rss n k) (bndR rss n (k + 1))
+        = writeAll (recsIn rss.flatten 0 (bndR rss n k) (bndR rss n (k + 1))) := by
+  obtain ⟨s, h1, h2, h3, h4⟩ := mkSt_rec_inv rss (rssOk_of rss hrss) hne ht k n w dw hk hn hw2 hw
+  have ht62 : totalSize (recFiles rss) < 2^62 := Nat.lt_of_lt_of_le ht (by omega)
+  exact ⟨s, h1, h2, h3, h4,
+    rangeStream_part_rec rss (rssOk_of rss hrss) ht62 n k (by omega) hn⟩
+
+/-- the boundaries run from `0` to the total size, are monotone, and each is the start of a record image in
+the concatenation of the files (or the total size) — `GHead` — hence a multiple of 4 -/
+theorem C04_boundaries (rss : List (List Bytes)) (n : Nat)
+    (hrss : ∀ rs ∈ rss, rs ≠ [] ∧ ∀ r ∈ rs, r.length < 2^29) (ht : totalSize (rss.map writeAll) < 2^56)
+    (hn0 : 0 < n) (hn : n < 2^32) :
+    bndR rss n 0 = 0 ∧ bndR rss n n = totalSize (rss.map writeAll) ∧
+    (∀ i j, i ≤ j → bndR rss n i ≤ bndR rss n j) ∧ (∀ j, GHead rss (bndR rss n j)) ∧
+    (∀ j, bndR rss n j % 4 = 0) :=
+  have ht' : totalSize (recFiles rss) < 2^62 := Nat.lt_of_lt_of_le ht (by omega)
+  ⟨bndR_zero rss n, bndR_last rss (rssOk_of rss hrss) ht' n hn0 hn,
+   fun i j h => bndR_mono rss (rssOk_of rss hrss) ht' n i j hn0 hn h,
+   fun j => bndR_ghead rss (rssOk_of rss hrss) ht' n j hn0 hn,
+   fun j => bndR_mod4 rss (rssOk_of rss hrss) ht' n j hn0 hn⟩
 
 end DmlcModel.Props.C04
